@@ -644,13 +644,7 @@ func runOps(e *runEnv, t *tracker, ops []COp, v *verdicts, where string, cls map
 		}
 		switch op.K {
 		case "append":
-			start := t.m.Last + 1
-			if t.m.Empty() {
-				start = op.Start
-				if start == 0 {
-					start = 1
-				}
-			}
+			start := t.m.ResolveStart(op.Start)
 			var logs []*raft.Log
 			for j, es := range op.Entries {
 				if len(es.Hostile) > 0 {
